@@ -6,7 +6,7 @@ FAMILIES = [dict(name="dml", ids=[1, 2, 3, 4], vals=[5], maxv=6, maxops=2, maxop
 
 
 def run(prop, tier, replay):
-    return T.run(prop, tier, FAMILIES, {"SerialEquivalence", "FailedHasNoEffect"},
+    return T.run(prop, tier, FAMILIES, {"SerialEquivalence", "FailedHasNoEffect"}, replay=replay,
                  assumptions=["concurrency is expressed as stale read versions + commit order (commit atomicity is C01/C02)",
                               "scenarios keep the key column unique (lance does not enforce keys; racing inserts of one key are outside the property)",
                               "conflict_retries = 0 so a retryable conflict surfaces instead of re-executing"])
